@@ -441,6 +441,8 @@ def run_history(P, kind, template, capacity=0, timeout_ms=120000, seed=0):
 
 def run_history_job(job):
     from .jobs import program
+    from . import steps
+    steps.TAG_FILTER = job.get('tags')
     try:
         r = run_history(program(job['mir']), job['kind'], job['template'], job.get('capacity', 0), job.get('timeout_ms', 120000), job.get('seed', 0))
     except Exception as ex:      # noqa
